@@ -462,9 +462,6 @@ func c14RunAll(c *mc.Ctx) {
 		}
 	}
 	for _, j := range jobs {
-		if !c.Mine() {
-			continue
-		}
 		b := bound
 		if len(j.sc) >= 3 && !c.Thorough() {
 			b = 2
@@ -474,7 +471,8 @@ func c14RunAll(c *mc.Ctx) {
 		}
 		r := &c14Run{k: c14Case{Scenario: j.sc, Drop: j.drop}}
 		outcomes := map[string]bool{}
-		st := mc.RunSchedules(b, 0, c.Expired, r.setup, func(res mc.SchedResult) {
+		// every shard walks the default schedule of every scenario and takes its share of the first-level subtrees
+		st := mc.RunSchedulesSharded(b, 0, c.Expired, c.Mine, c.Shard == 0, r.setup, func(res mc.SchedResult) {
 			c14Check(c, r, res)
 			h := fnv.New64a()
 			for _, ch := range res.Choices {
@@ -488,7 +486,7 @@ func c14RunAll(c *mc.Ctx) {
 		c.R.States += int64(len(outcomes))
 		c.R.Distinct += int64(len(outcomes))
 		c.Count("schedules:"+strings.Join(j.sc, ","), st.Schedules)
-		label := fmt.Sprintf("threads %v (pool may drop: %v): all schedules with <= %d preemptions/deviations (%d scheduling points max)", j.sc, j.drop, b, st.MaxPoints)
+		label := fmt.Sprintf("threads %v (pool may drop: %v): all schedules with <= %d preemptions/deviations", j.sc, j.drop, b)
 		if st.Capped {
 			c.Incomplete(label)
 		} else {
